@@ -34,8 +34,9 @@ type verifC37Item struct {
 	ID          int
 	Hash        uint64 // mailbox: shard selector
 	UseKey      bool   // mailbox: go through Submit(key) instead of SubmitHash
-	Lat         int    // 0 none, 1 yield, 2 sleep, 3 wait for the gate
+	Lat         int    // 0 none, 1 yield, 2 sleep, 3 wait for the gate, 4 (sched mode) wait until LatN more Submit calls returned
 	LatN        int
+	LatUs       int // Lat 4: upper bound of the wait (progress guarantee, schedule shaping only)
 	BatchMax    int // batch pool: policy MaxItems chosen when this item is first in a batch
 	BatchWaitUs int // batch pool: policy MaxWait
 }
@@ -45,6 +46,8 @@ type verifC37Op struct {
 	Wait  bool // SubmitWait (pool and worker queue only)
 	Ctx   int  // 0 background, 1 already cancelled, 2 cancelled after CtxUs
 	CtxUs int
+	Pre   int // sched mode: pause of the producer before this call: 0 none, 1 yield PreN times, 2 sleep PreN microseconds
+	PreN  int
 }
 
 type verifC37Plan struct {
@@ -64,6 +67,12 @@ type verifC37Plan struct {
 	ObsSleepUs     int
 	Salt           uint64
 	ReleaseUs      int // ReleaseTimeout of the ants pool after Close (0: package default 100ms)
+
+	// mailbox scheduling mode (TestVerifC37MailboxSched, see zz_verif_c37_mailboxsched_test.go)
+	Sched    bool   `json:",omitempty"`
+	StallPct [4]int // % of the worker / batch / depth / admission observation points at which the calling goroutine is held
+	StallN   int    // a held goroutine continues when up to this many more Submit calls have returned ...
+	StallUs  int    // ... or after this time (progress guarantee, schedule shaping only)
 }
 
 type verifC37SubmitRec struct {
@@ -83,6 +92,9 @@ type verifC37BatchRec struct {
 	End   uint64 `json:"end"`
 	IDs   []int  `json:"ids"`
 	First verifC37Item `json:"-"`
+	// sched mode: the drain that made this call was started by finishShardDrain
+	// (hand-over of a non-empty shard), not by a Submit
+	Resched bool `json:"resched,omitempty"`
 }
 
 type verifC37CancelRec struct {
@@ -101,6 +113,7 @@ type verifC37Run struct {
 	gateOnce  sync.Once
 	closeTrig chan struct{}
 	closeOnce sync.Once
+	sched     *verifC37Sched // nil unless plan.Sched
 
 	mu        sync.Mutex
 	batches   []verifC37BatchRec
@@ -112,6 +125,9 @@ func (r *verifC37Run) triggerClose() { r.closeOnce.Do(func() { close(r.closeTrig
 
 func (r *verifC37Run) attemptDone() {
 	n := int(r.attempts.Add(1))
+	if r.sched != nil {
+		r.sched.wake(r, false)
+	}
 	if n == r.plan.GateAfter {
 		r.openGate()
 	}
@@ -130,6 +146,8 @@ func (r *verifC37Run) latency(it verifC37Item) {
 		time.Sleep(time.Duration(it.LatN) * time.Microsecond)
 	case 3:
 		<-r.gate
+	case 4:
+		r.sched.hold(r, it.LatN, it.LatUs)
 	}
 }
 
@@ -141,12 +159,13 @@ func (r *verifC37Run) handle(shard int, items []verifC37Item) {
 		ids[i] = it.ID
 	}
 	first := items[0]
+	resched := r.sched != nil && shard >= 0 && shard < len(r.sched.cur) && r.sched.cur[shard].Load()
 	for _, it := range items {
 		r.latency(it)
 	}
 	r.mu.Lock()
 	end := r.clock.Add(1)
-	r.batches = append(r.batches, verifC37BatchRec{Shard: shard, Start: start, End: end, IDs: ids, First: first})
+	r.batches = append(r.batches, verifC37BatchRec{Shard: shard, Start: start, End: end, IDs: ids, First: first, Resched: resched})
 	r.mu.Unlock()
 	r.running.Add(-1)
 }
@@ -194,6 +213,9 @@ func verifC37Build(r *verifC37Run) (*verifC37Target, error) {
 	var mobs ShardedMailboxObserver
 	if p.ObsEvery > 0 {
 		pobs, mobs = r, r
+	}
+	if p.Sched {
+		mobs = verifC37SchedObserver{r}
 	}
 	zero := func(verifC37Item) int { return 0 }
 	switch p.Prim {
@@ -259,6 +281,9 @@ func verifC37Build(r *verifC37Run) (*verifC37Target, error) {
 			})
 		if err != nil {
 			return nil, err
+		}
+		if r.sched != nil {
+			r.sched.mbox.Store(q)
 		}
 		shards := uint64(p.Shards)
 		return &verifC37Target{close: q.Close,
@@ -367,11 +392,19 @@ const (
 	verifC37SigMailbox = "mailbox:admitted-between-last-drain-check-and-finish-then-close"
 )
 
-func verifC37Check(t *testing.T, prim string) {
+func verifC37Check(t *testing.T, prim string, sched bool) {
 	col := kit.For(t, "C37")
 	kit.Check(t, "C37", func(rt *rapid.T, k *kit.Case) {
-		plan := verifC37DrawPlan(rt, prim)
+		var plan *verifC37Plan
+		if sched {
+			plan = verifC37DrawSchedPlan(rt)
+		} else {
+			plan = verifC37DrawPlan(rt, prim)
+		}
 		r := &verifC37Run{plan: plan, gate: make(chan struct{}), closeTrig: make(chan struct{})}
+		if sched {
+			r.sched = verifC37NewSched(plan)
+		}
 		tg, err := verifC37Build(r)
 		if err != nil {
 			rt.Fatalf("construct %s: %v", prim, err)
@@ -417,6 +450,14 @@ func verifC37Check(t *testing.T, prim string) {
 					case 2:
 						ctx, cancel = context.WithTimeout(ctx, time.Duration(op.CtxUs)*time.Microsecond)
 					}
+					switch op.Pre {
+					case 1:
+						for y := 0; y < op.PreN; y++ {
+							runtime.Gosched()
+						}
+					case 2:
+						time.Sleep(time.Duration(op.PreN) * time.Microsecond)
+					}
 					s := r.clock.Add(1)
 					err := tg.submit(ctx, op.Wait, op.Item)
 					e := r.clock.Add(1)
@@ -451,12 +492,28 @@ func verifC37Check(t *testing.T, prim string) {
 		}()
 		close(startCh)
 		allDone := make(chan struct{})
-		go func() { prod.Wait(); <-closerDone; close(allDone) }()
+		go func() {
+			prod.Wait()
+			if r.sched != nil {
+				// no Submit call will return any more: release every held
+				// goroutine, call Close if the plan's trigger count was not
+				// reached, then open the gate (Close meets pending work)
+				r.sched.wake(r, true)
+				r.triggerClose()
+				runtime.Gosched()
+				r.openGate()
+			}
+			<-closerDone
+			close(allDone)
+		}()
 		select {
 		case <-allDone:
 		case <-time.After(60 * time.Second):
 			r.openGate()
 			r.triggerClose()
+			if r.sched != nil {
+				r.sched.wake(r, true)
+			}
 			col.Inconclusive("producers/Close not joined within 60s")
 			rt.Skip("inconclusive: join deadline")
 		}
@@ -706,27 +763,33 @@ func verifC37Check(t *testing.T, prim string) {
 		}
 		b, _ := json.Marshal(plan)
 		k.Key(b)
-		k.SetNonTrivial(len(accepted) > 0 && (pendingAtClose > 0 || nClosed > 0) && (nFull > 0 || len(plan.Producers) > 1 || waitAccepted > 0))
-		k.Label(prim)
-		k.LabelIf(nFull > 0, prim+": ErrFull seen")
-		k.LabelIf(nClosed > 0, prim+": ErrClosed seen by a producer")
-		k.LabelIf(nCtx > 0, prim+": caller context error seen")
-		k.LabelIf(pendingAtClose > 0, prim+": admitted work pending when Close was called")
-		k.LabelIf(acceptedDuringClose > 0, prim+": Submit admitted while Close was running")
-		k.LabelIf(len(cancelled) > 0, prim+": cancel hook ran")
-		k.LabelIf(maxBatch > 1, prim+": multi-item batch")
-		k.LabelIf(orderPairs > 0, prim+": ordered pairs checked")
-		k.LabelIf(len(accepted) == 0, prim+": nothing admitted")
-		col.AddExtra("submits_"+prim, int64(len(all)))
-		col.AddExtra("admitted_"+prim, int64(len(accepted)))
+		lp := prim // label prefix
+		if sched {
+			lp = "mailbox-sched"
+			verifC37SchedClassify(r, k, col, all, batches)
+		} else {
+			k.SetNonTrivial(len(accepted) > 0 && (pendingAtClose > 0 || nClosed > 0) && (nFull > 0 || len(plan.Producers) > 1 || waitAccepted > 0))
+		}
+		k.Label(lp)
+		k.LabelIf(nFull > 0, lp+": ErrFull seen")
+		k.LabelIf(nClosed > 0, lp+": ErrClosed seen by a producer")
+		k.LabelIf(nCtx > 0, lp+": caller context error seen")
+		k.LabelIf(pendingAtClose > 0, lp+": admitted work pending when Close was called")
+		k.LabelIf(acceptedDuringClose > 0, lp+": Submit admitted while Close was running")
+		k.LabelIf(len(cancelled) > 0, lp+": cancel hook ran")
+		k.LabelIf(maxBatch > 1, lp+": multi-item batch")
+		k.LabelIf(orderPairs > 0, lp+": ordered pairs checked")
+		k.LabelIf(len(accepted) == 0, lp+": nothing admitted")
+		col.AddExtra("submits_"+lp, int64(len(all)))
+		col.AddExtra("admitted_"+lp, int64(len(accepted)))
 		k.Sample(func() any {
 			return fmt.Sprintf("%s workers=%d queue=%d shards=%d producers=%d submits=%d admitted=%d full=%d closed=%d ctx=%d cancelled=%d pendingAtClose=%d",
-				prim, plan.Workers, plan.Queue, plan.Shards, len(plan.Producers), len(all), len(accepted), nFull, nClosed, nCtx, len(cancelled), pendingAtClose)
+				lp, plan.Workers, plan.Queue, plan.Shards, len(plan.Producers), len(all), len(accepted), nFull, nClosed, nCtx, len(cancelled), pendingAtClose)
 		})
 	})
 }
 
-func TestVerifC37Pool(t *testing.T)        { verifC37Check(t, "pool") }
-func TestVerifC37BatchPool(t *testing.T)   { verifC37Check(t, "batch") }
-func TestVerifC37WorkerQueue(t *testing.T) { verifC37Check(t, "wq") }
-func TestVerifC37Mailbox(t *testing.T)     { verifC37Check(t, "mailbox") }
+func TestVerifC37Pool(t *testing.T)        { verifC37Check(t, "pool", false) }
+func TestVerifC37BatchPool(t *testing.T)   { verifC37Check(t, "batch", false) }
+func TestVerifC37WorkerQueue(t *testing.T) { verifC37Check(t, "wq", false) }
+func TestVerifC37Mailbox(t *testing.T)     { verifC37Check(t, "mailbox", false) }
